@@ -285,17 +285,26 @@ def run(chk, tier, seed, replay=None):
                 'GlobalState_gc: subsets of {--gc, -G, --gc-after-test, -D, --buffer} x -G naming {UNCOLLECTABLE} / {SAVEALL} / both x '
                 'verbosity >= 4 or not x 7 caller debug-flag states (none, overlapping with -G, disjoint, SAVEALL) x 9 endings (incl. KeyboardInterrupt '
                 'inside the analysis window): Restored, HooksRestored, '
-                'Terminates, mid-run state and flags as predicted; 13 deviation configs must each give a counterexample. (2) real '
+                'Terminates, mid-run state and flags as predicted; GlobalState_nest: NESTED runs - the first test of a run calls run_internal itself, '
+                'the pipeline recursively (depth 2; inner options from {-G, --coverage, --profile, --buffer, warnings}, inner run returning or interrupted), '
+                'every run restores what IT found (g = g0 per level), the outer mid-run state is as predicted again once the inner run is over; '
+                'ending profDirGone: the --profile-directory disappears during the run, Profiling.global_teardown raises OSError from the finally clause; '
+                '15 deviation configs (incl. SharedSaveSlot: one module-level slot for the replaced traceback functions; ProfilerOffAtDump: no early '
+                'profiler.disable) must each give a counterexample. (2) real '
                 'runs in a fresh interpreter each, with a non-default caller state (gc thresholds '
                 '(701,11,9) / (0,11,9) / (5000,20,20) / default, gc debug flags from 6 states, an extra warnings filter, wrapped traceback functions, optionally own '
                 'trace / profile hooks): option subsets (quick: pairwise + all singles, thorough: '
-                'all 2^8) x 12 endings (normal, failing, exception from testSetUp / testTearDown, '
+                'all 2^8) x 13 endings (normal, failing, exception from testSetUp / testTearDown, '
                 'KeyboardInterrupt in a test / in a layer setUp / while stopTest prints the cyclic garbage of a test, -x, -D post-mortem, skip or '
-                'KeyboardInterrupt followed by a raising testTearDown, KeyboardInterrupt in a test that had replaced sys.stdout for itself); '
+                'KeyboardInterrupt followed by a raising testTearDown, KeyboardInterrupt in a test that had replaced sys.stdout for itself, '
+                'a test removing the --profile-directory so that the run is aborted by OSError from global_teardown); '
+                'a family of nested runs (a test calls zope.testrunner.run_internal on a project of its own in a scratch directory; 8 outer option sets x '
+                '3 inner option sets x 5 endings; snapshots right before / after the inner run are judged by the same clause); '
                 'a family crossing every caller flag state with every -G variant and --gc-after-test; tests leave cyclic garbage whose printing may raise; snapshots before / inside a '
                 'test / after (and the flags seen inside the analysis window) are compared by TLC; distinct = distinct (options, caller hooks, ending, caller flags, -G flags, verbosity)')
     chk.assumptions += ['doctest report flags, pdb.set_trace and the root logging handler are named non-goals (DESIGN 5/C18)',
                         'exceptions raised before the test phase begins are outside the statement',
+                        'nested runs: --profile inside a --profile run (refused by the interpreter before the inner test phase) and --coverage inside a --coverage run are not enumerated',
                         'gc.garbage (emptied by the --gc-after-test analysis) and gc.isenabled() (never touched by the runner) are not part of the statement']
     if replay:
         with open(replay) as f:
